@@ -97,6 +97,12 @@ def run(ctx):
     for b in range(256):
         u = bytes([b]) if b else b"x"
         add(hs41(u), u)
+    # the fields the server has no business interpreting: reserved block (MariaDB puts extended capabilities
+    # there), max packet size, collation
+    for filler in (b"\xff" * 23, bytes(19) + b"\x04\x00\x00\x00", bytes(range(1, 24)), b"\x00" * 22 + b"\x01"):
+        for maxps, coll in ((0, 0), (0xffffffff, 0xff), (rng.getrandbits(32), rng.getrandbits(8))):
+            u = rng.choice(users[:6])
+            add(hs41(u, filler=filler, maxps=maxps, coll=coll), u, tls=rng.randint(0, 1), auth=rng.choice(["ok", "rej:9"]))
     for bit in range(32):
         caps = (1 << bit) | 0x200
         if caps & 0x800:
